@@ -33,8 +33,13 @@ def copy_prog(ctx):
     if not p["ic"]:
         from vh.c01 import with_comments
         src = with_comments(src)
+        # trees with preprocessor, include and directive nodes as well
+        lines = src.split("\n")
+        k = len(lines) // 2
+        src = "\n".join(["#define VERSION 3"] + lines[:k] + ["#ifdef DEBUG", "  include 'absent.inc'", "#endif", "!$omp barrier"] + lines[k:])
     ctx.observe("src", src)
-    r = C.outcome(lambda: C.parse(src, p["std"], p["ic"]))
+    kw = dict(process_directives=True) if not p["ic"] else {}
+    r = C.outcome(lambda: C.parse(src, p["std"], p["ic"], **kw))
     if r[0] != "ok":
         ctx.fail("valid program rejected (" + r[0] + ")")
         return
